@@ -53,7 +53,8 @@ class UserEffectEvent(EventABC):
 
     def _nudge(self, k):
         self.n += 1
-        self.target.change_fundamental_price(1.0 + (k + self.n % 3) * 1e-4)
+        # the size of the nudge comes from the event's OWN generator (handed to it by the runner)
+        self.target.change_fundamental_price(1.0 + (k + self.n % 3 + self.prng.random()) * 1e-4)
 
     def hooked_before_order(self, simulator, order):
         self._nudge(1)
